@@ -42,7 +42,9 @@ pub fn mv_content(s: &S) -> String {
     format!("{:?}", v)
 }
 pub fn mv_rr_view(s: &S) -> RrView {
-    RrView { clock: vec![], elems: mv_vals(s).into_iter().map(|(c, v)| (format!("v{}", v), c, None)).collect(), pending: vec![] }
+    let mut elems: Vec<(String, Clk, Option<Box<RrView>>)> = mv_vals(s).into_iter().map(|(c, v)| (format!("v{}", v), c, None)).collect();
+    elems.sort();
+    RrView { clock: vec![], elems, pending: vec![] }
 }
 
 impl Sys for Mv {
